@@ -67,6 +67,7 @@ class Run:
         self.bus = instrument.Bus(ties.make_policy(case.get('tie', 'prng'), case.get('tie_seed', 0)))
         self.bus.attach(self)
         self.waiting = []        # Waiter objects in registration order (not yet called)
+        self.decimal = bool(case.get('decimal'))
         self.held = []           # reservations made by the script / callbacks
         self.nreg = 0
         self.failed = False
@@ -86,13 +87,17 @@ class Run:
             else:
                 self.sh.count('foreign_discrepancy_' + name)
 
-    def checked_reserve(self, request):
-        """reserve_resources must succeed exactly when the request fits at this moment (C09)."""
+    def checked_reserve(self, request, offered=False):
+        """reserve_resources must succeed exactly when the request fits at this moment (C09); a request the
+        manager has just offered to its callback (nothing changed since) must be reservable."""
         fits = self.fits(request)
+        if fits is None:
+            fits = True if offered else None
+            self.sh.count('borderline_decimal_reservations')
         neg = any(a < 0 for a in request.values())
         r = self.rm.reserve_resources(request)
         self.sh.count('reservations_judged')
-        if not neg and (r is not None) != fits:
+        if not neg and fits is not None and (r is not None) != fits:
             self.fail('reserve_vs_fit', f'reserve_resources({request}) at {self.env.now!r} returned '
                       f'{"a reservation" if r is not None else None} although the request '
                       f'{"fits" if fits else "does not fit"} (usage/capacity '
@@ -104,7 +109,7 @@ class Run:
         for r in self.case['resources']:
             u = self.rm.get_resource_usage(r)
             held = sum(x.reserved_resources.get(r, 0) for x in self.held)
-            if u != held:
+            if u != held and not (self.decimal and abs(u - held) <= 1e-9):
                 self.fail('pool_usage_ne_holdings', f'{where}: usage({r}) = {u!r} but outstanding reservations hold '
                           f'{held!r}')
                 return
@@ -118,12 +123,18 @@ class Run:
         self.sh.count('pool_checks')
 
     def fits(self, request):
+        """True / False; with decimal amounts None when a margin is within rounding of zero (which way an
+        implementation rounds there is its own business - only its self-consistency is judged)."""
+        border = False
         for r, a in request.items():
             if a == 0:
                 continue
-            if self.rm.get_resource_capacity(r) - self.rm.get_resource_usage(r) < a:
+            margin = self.rm.get_resource_capacity(r) - self.rm.get_resource_usage(r) - a
+            if self.decimal and abs(margin) <= 1e-9:
+                border = True
+            elif margin < 0:
                 return False
-        return True
+        return None if border else True
 
     # -- script operations -------------------------------------------------------------
     def op_action(self, op):
@@ -176,7 +187,7 @@ class Run:
             self.fail('callback_args', f'registration {w.reg}: request argument {req} (identical object: '
                       f'{req is w.request}) for request {w.request}')
             return
-        if not self.fits(w.request):
+        if self.fits(w.request) is False:
             self.fail('called_when_infeasible', f'registration {w.reg} {w.request} called back at {self.env.now!r} '
                       f'although it does not fit')
             return
@@ -220,11 +231,11 @@ class Run:
                                 self.reduced_below.add(first)
                         except ValueError:
                             pass
-            r = self.checked_reserve(req)
+            r = self.checked_reserve(req, offered=(b == 'reserve_offered'))
             if r is not None:
                 self.held.append(r)
         elif b == 'reserve' or b == 'reserve_release_later':
-            r = self.checked_reserve(dict(w.request))
+            r = self.checked_reserve(dict(w.request), offered=True)
             if r is None:
                 self.fail('called_when_infeasible', f'registration {w.reg}: reserve inside the callback failed')
                 return
@@ -278,7 +289,18 @@ class Run:
             return
         self.sh.count('clock_advances_checked')
         for w in self.waiting:
-            if self.fits(w.request):
+            f = self.fits(w.request)
+            if f is None:
+                # borderline: the manager's own reserve_resources is the judge (a refused reservation changes nothing)
+                probe = self.rm.reserve_resources(dict(w.request))
+                self.sh.count('borderline_waiters_probed')
+                if probe is not None:
+                    self.fail('feasible_request_left_waiting', f'{where}: registration {w.reg} {w.request} is still '
+                              f'waiting although reserve_resources grants the same request at this moment (usage/capacity: '
+                              f'{[(r, self.rm.get_resource_usage(r) - w.request[r], self.rm.get_resource_capacity(r)) for r in w.request]})')
+                    return
+                continue
+            if f:
                 self.fail('feasible_request_left_waiting', f'{where}: registration {w.reg} {w.request} fits '
                           f'(usage/capacity: {[(r, self.rm.get_resource_usage(r), self.rm.get_resource_capacity(r)) for r in w.request]}) '
                           f'and is still waiting')
@@ -307,16 +329,23 @@ class Run:
         return {'multi_pass': self.multi_pass, 'infeasible_mid': self.infeasible_mid}
 
 
-def gen_case(rng, tie):
+def gen_case(rng, tie, decimal=False):
     nres = rng.choice([1, 1, 2, 2, 3])
     resources = {f'r{k}': rng.choice([0, 1, 1, 2, 3]) for k in range(nres)}
+    amounts = [1, 1, 1, 2, 0.5, 3, 0]
+    adds = [1, 1, 2, -1, -1, 0.5, 3]
+    if decimal:
+        # one-decimal capacities and amounts: capacity - usage and usage + amount round differently
+        resources = {f'r{k}': rng.choice([1.0, 1.7, 2.0, 0.9, 1.3, 0.3, 1.1]) for k in range(nres)}
+        amounts = [0.1, 0.2, 0.2, 0.3, 0.6, 0.8, 1.1, 0.7, 0.4, 0]
+        adds = [0.1, 0.3, -0.1, -0.2, 0.7, 1.0, -0.6]
     names = sorted(resources)
     horizon = 12.0
     script = []
 
     def req():
         k = 1 if len(names) == 1 or rng.random() < 0.6 else 2
-        return [[r, rng.choice([1, 1, 1, 2, 0.5, 3, 0])] for r in rng.sample(names, k)]
+        return [[r, rng.choice(amounts)] for r in rng.sample(names, k)]
     n = rng.randint(6, 40)
     t = 0.0
     for _ in range(n):
@@ -334,10 +363,12 @@ def gen_case(rng, tie):
         elif x < 0.8:
             op = ['release', rng.randrange(4)]
         else:
-            op = ['add', rng.choice(names), rng.choice([1, 1, 2, -1, -1, 0.5, 3])]
+            op = ['add', rng.choice(names), rng.choice(adds)]
         script.append([t, prio, op])
     case = {'engine': 'waiters', 'resources': resources, 'script': script, 'horizon': horizon, 'tie': tie,
             'tie_seed': rng.randrange(1 << 30)}
+    if decimal:
+        case['decimal'] = True
     if rng.random() < 0.35:
         a = rng.randrange(1, int(horizon * 4)) / 4.0
         case['segments'] = [a, horizon - a]
@@ -366,6 +397,21 @@ def run(sh):
     for i in sh.share(n):
         rng = random.Random(core.stable_int(sh.seed, 'C10', i))
         run_case(sh, gen_case(rng, pol[i % 4]))
+    for i in sh.share(n // 2):
+        rng = random.Random(core.stable_int(sh.seed, 'C10dec', i))
+        run_case(sh, gen_case(rng, pol[i % 4], decimal=True))
+        sh.count('decimal_cases')
+    # scale: very many requests becoming feasible at one availability check
+    for i in sh.share(4 if sh.tier == 'quick' else 64):
+        rng = random.Random(core.stable_int(sh.seed, 'C10mass', i))
+        nw = rng.choice([1200, 1500, 2500])
+        script = [[0.0, 5, ['register', [['r0', 1]], rng.choice(['reserve', 'reserve', 'none', 'reserve_release_later'])]]
+                  for _ in range(nw)]
+        script.append([rng.choice([1.0, 2.5]), 5, ['add', 'r0', nw + rng.choice([0, 5, -3])]])
+        case = {'engine': 'waiters', 'resources': {'r0': 0}, 'script': script, 'horizon': 6.0, 'tie': pol[i % 4],
+                'tie_seed': i, 'mass': nw}
+        run_case(sh, case)
+        sh.count('mass_waiter_cases')
 
 
 def replay(sh, v):
